@@ -192,11 +192,14 @@ class IOApp(_StackMixin, ApplicationIOController):
         ApplicationIOController.__init__(self, device)
         self._wire(device, mac, net, **kw)
         self.iocbs = []
+        self.chain = []             # (peer, req_len, service_number) submitted one by one from the completion callbacks
+        self.chain_submitted = []
 
     def submit(self, peer, req_len, service_number=1, invoke=None):
         req = self.make_request(peer, req_len, service_number, invoke)
         iocb = IOCB(req)
         iocb.calls = 0
+        iocb.add_callback(self._iocb_done_record)
         iocb.add_callback(self._iocb_done)
         self.iocbs.append(iocb)
         self.request_io(iocb)
@@ -204,6 +207,16 @@ class IOApp(_StackMixin, ApplicationIOController):
 
     def _iocb_done(self, iocb):
         iocb.calls += 1
+        self._after_callback(iocb)
+
+    def _after_callback(self, iocb):
+        """Applications commonly submit their next request from inside the completion callback."""
+        nxt = getattr(self, "chain", None)
+        if nxt:
+            args = nxt.pop(0)
+            self.chain_submitted.append(self.submit(*args))
+
+    def _iocb_done_record(self, iocb):
         apdu = iocb.ioResponse if iocb.ioResponse is not None else iocb.ioError
         if apdu is None or not hasattr(apdu, "apduInvokeID"):
             self.confirmations.append((vclock.clock.now, "other:%r" % (apdu,), None, None, None, "iocb", None))
